@@ -58,6 +58,18 @@ const OFFENDERS: &[(&str, &str)] = &[
     ("undefined shorthand", "q_ := {\u{1}y_}\n"),
     ("operator type error", "q_ := 1 \u{1}+ \"a\"\n"),
     ("second operator type error", "q_ := 1 + 2 \u{1}* \"a\"\n"),
+    ("first operator of a chain fails", "q_ := 1 \u{1}+ \"a\" + 2 + 3\n"),
+    ("middle operator of a chain fails", "q_ := 1 + 2 \u{1}- \"a\" + 3\n"),
+    ("first operator of a chain over continuation lines", "q_ := 1 \u{1}+\n  \"a\" +\n  2\n"),
+    ("overflow in the middle of a chain", "q_ := 9223372036854775807 \u{1}+ 1 - 1\n"),
+    ("undefined name as a range end", "q_ := 0 .. \u{1}y_\n"),
+    ("undefined name as a range start", "q_ := \u{1}y_ .. 3\n"),
+    ("call error as a range end", "fn nf_(a) {\nreturn a\n}\nfor e_ in 0 .. \u{1}nf_() {\n}\n"),
+    ("undefined name after a bare carriage return", "w_ := 1;\r q_ := \u{1}y_\n"),
+    ("undefined name in an index", "w_ := [1]\nq_ := w_[\u{1}y_]\n"),
+    ("undefined name in a range index bound", "w_ := [1]\nq_ := w_[0:\u{1}y_]\n"),
+    ("undefined name as an object value", "q_ := {\"k\": \u{1}y_}\n"),
+    ("undefined name in a slot-free interpolated string neighbour", "q_ := $\"a\" + \u{1}y_\n"),
     ("comparison type error", "q_ := [1] \u{1}< 2\n"),
     ("equality type error", "q_ := 1 \u{1}== \"a\"\n"),
     ("overflow", "q_ := 9223372036854775807 \u{1}+ 1\n"),
